@@ -2,7 +2,8 @@
 (* Trace validation for C18.  One event per run of the real binary under a scenario:       *)
 (*   [run, sc, code, stderr, hit, pager, rflag, got, sent, gotHash, sentHash, pagerDoneFirst, *)
 (*    completed]                                                                           *)
-(*   code / stderr   delta's exit status / 1 iff anything was written to stderr             *)
+(*   code / stderr   delta's exit status (999: timed out) / 1 iff anything was written to stderr  *)
+(*   errLines        number of lines that arrived on delta's stderr                          *)
 (*   pager           name of the pager that was started ("" none), rflag: it was given the   *)
 (*                   raw-control-chars option                                               *)
 (*   got, sent       bytes received by the consumer / bytes of the complete output            *)
@@ -18,12 +19,13 @@ vars == <<l, failed>>
 
 Scen(e) == [mode |-> e.sc.mode, out |-> e.sc.out, quit |-> e.sc.quit, status |-> e.sc.status,
             src |-> {x \in {"config", "delta", "bat", "pager"} : e.sc.src[x]}, pagerval |-> e.sc.pagerval,
-            stay |-> e.sc.stay, big |-> e.sc.big, how |-> e.sc.how, bare |-> e.sc.bare, wf |-> e.sc.wf, wat |-> e.sc.wat]
+            stay |-> e.sc.stay, big |-> e.sc.big, how |-> e.sc.how, bare |-> e.sc.bare, wf |-> e.sc.wf, wat |-> e.sc.wat, noisy |-> e.sc.noisy]
 
 Why(e) ==
   LET sc == Scen(e) IN
   IF ~ExitOK(sc, e.code, e.hit) THEN "exit-status"
   ELSE IF WantQuiet(sc) /\ e.code = 0 /\ e.stderr # 0 /\ NormalExit(sc) = 0 THEN (IF sc.quit > 0 THEN "noise-on-quit" ELSE "noise-on-retried-write")
+  ELSE IF e.code # 999 /\ ~StderrOK(sc, e.errLines) THEN "stderr-lost"
   ELSE IF sc.out = "pager" /\ e.pager # Chosen(sc) THEN "pager-choice"
   ELSE IF sc.out = "pager" /\ LessArgsAreDeltas(sc) /\ ~e.rflag THEN "less-without-R"
   ELSE IF ~DeliveredOK(sc, e.got, e.sent, e.gotHash, e.sentHash) THEN "not-delivered"
